@@ -19,12 +19,12 @@ CONTRACTS = ["cw1_subkeys", "cw1_whitelist", "cw20_base", "cw20_ics20", "cw3_fix
 
 TRACKED = {
     "C01": [("cw20_base", "balance"), ("cw20_base", "token_info")],
-    "C02": [("cw20_base", "balance"), ("cw20_base", "allowance"), ("cw20_base", "allowance_spender")],
+    "C02": [("cw20_base", "balance"), ("cw20_base", "allowance")],
     "C03": [("cw3_fixed_multisig", "proposals"), ("cw3_fixed_multisig", "votes")],
     "C04": [],
     "C05": [("cw3_fixed_multisig", "proposals"), ("cw3_fixed_multisig", "proposal_count")],
     "C06": [("cw3_fixed_multisig", "votes"), ("cw3_fixed_multisig", "voters"), ("cw3_fixed_multisig", "config")],
-    "C07": [("cw1_whitelist", "admin_list"), ("cw1_subkeys", "allowances"), ("cw1_subkeys", "permissions")],
+    "C07": [("cw1_subkeys", "allowances"), ("cw1_subkeys", "permissions")],
     "C08": [("cw1_subkeys", "allowances"), ("cw1_subkeys", "permissions")],
     "C09": [("cw4_group", "members"), ("cw4_group", "total"), ("cw4_stake", "members"), ("cw4_stake", "total")],
     "C10": [("cw4_stake", "stake"), ("cw4_stake", "members")],
@@ -33,7 +33,7 @@ TRACKED = {
     "C13": [("cw20_base", "token_info")],
     "C14": [("cw4_group", "members"), ("cw4_group", "total"), ("cw4_stake", "members")],
     "C15": [("cw3_fixed_multisig", "proposals")],
-    "C16": [("cw1_whitelist", "admin_list"), ("cw1_subkeys", "allowances"), ("cw1_subkeys", "permissions")],
+    "C16": [],
     "C17": [("cw1_whitelist", "admin_list"), ("cw1_subkeys", "allowances"), ("cw1_subkeys", "permissions")],
     "C18": [("cw20_ics20", "allow_list"), ("cw20_ics20", "ics20_config")],
     "C19": [("cw20_base", "allowance"), ("cw20_base", "allowance_spender")],
